@@ -105,27 +105,23 @@ def lookup_query_metadata(q: ObjectStream, metadata_name: str) -> Optional[Any]:
         Optional[Any]: Either the metadata value or `None`.
     """
 
-    class _finder(ast.NodeVisitor):
-        def __init__(self):
-            self.ds: Optional[ast.Call] = None
-            self._found = None
-
-        @property
-        def found(self) -> Optional[Any]:
-            return self._found
-
-        def generic_visit(self, node: ast.AST):
-            q_metadata = getattr(node, "_q_metadata", None)
-            found = False
-            if q_metadata is not None:
-                if metadata_name in q_metadata:
-                    found = True
-                    self._found = q_metadata[metadata_name]
-
-            if not found:
-                super().generic_visit(node)
-
-    ds_f = _finder()
-    ds_f.visit(q.query_ast)
-
-    return ds_f.found
+    # Only the stream's own derivation path is looked at: a node, then the sequence it was
+    # derived from (the first argument of the call, the object of a method call). What sits in
+    # the other arguments - a lambda whose body is a stream of its own, with its own query
+    # metadata - is not on that path.
+    node: Optional[ast.AST] = q.query_ast
+    while node is not None:
+        q_metadata = getattr(node, "_q_metadata", None)
+        if q_metadata is not None and metadata_name in q_metadata:
+            return q_metadata[metadata_name]
+        if isinstance(node, (ast.Attribute, ast.Subscript)):
+            node = node.value
+        elif not isinstance(node, ast.Call):
+            break
+        elif isinstance(node.func, ast.Attribute):
+            node = node.func.value
+        elif len(node.args) > 0:
+            node = node.args[0]
+        else:
+            break
+    return None
